@@ -412,11 +412,22 @@ def predict(case, B, index_of, label=None, inherit_dir=None):
                         # indirection on a structure parameter"; a (type) override to a structure makes it one
                         ca = M('1') if F.depth < 2 else M('0')
     inherited_inout = False
+    conflict = False
     if inherit_dir is not None and param:
         # this parameter is the length of an array: "An array length annotation also makes the named length
         # parameter follow the array's direction" - its own annotations are judged with that direction
-        eff_dir = inherit_dir if not dir_keys else 'U'
-        inherited_inout = eff_dir == 'inout'
+        if dir_keys and eff_dir != inherit_dir:
+            # the length parameter carries its own, different direction.  Declared before the array
+            # (layout 3) the array's annotation is the last word: n follows the array.  Declared after it the
+            # two annotations contradict each other and the documentation does not say which wins.
+            eff_dir = inherit_dir if (case.get('layout') == 3 and eff_dir != 'U') else 'U'
+            ca = U
+            inherited_inout = True           # (transfer left unspecified as well)
+            conflict = True
+        elif not dir_keys:
+            eff_dir = inherit_dir
+        if eff_dir == 'inout':
+            inherited_inout = True           # which default transfer an inout length gets is not documented
     e.eff_dir = eff_dir
     dir_changed = param and eff_dir != b_dir
 
@@ -447,6 +458,8 @@ def predict(case, B, index_of, label=None, inherit_dir=None):
     def transfer_without_annotation():
         if ret_dir_ann and type_over:
             return U          # an (invalid) direction on a return value next to a type override
+        if conflict:
+            return U
         if dir_changed:
             if eff_dir == 'U' or F.cat in ('callback', 'dnotify') or inherited_inout:
                 return U
